@@ -79,3 +79,25 @@ def fmtRes {α} (f : α → String) : Res α → String
 
 end IO
 end OdcGeo
+
+namespace OdcGeo
+
+partial def driverLoop (run : List String → Option String) (hin hout : IO.FS.Stream) : IO Unit := do
+  let line ← hin.getLine
+  if line.isEmpty then return ()
+  let toks := (line.trimAscii.toString.splitOn " ")
+  -- first token is the property tag (`c17`), kept for readability of line files
+  let out := match toks with
+    | _ :: rest => (run rest).getD "bad-op"
+    | [] => "bad-op"
+  hout.putStrLn out
+  driverLoop run hin hout
+
+/-- Entry point shared by all per-property drivers: one op per line in, one line out. -/
+def driverMain (run : List String → Option String) : IO Unit := do
+  let hin ← IO.getStdin
+  let hout ← IO.getStdout
+  driverLoop run hin hout
+  hout.flush
+
+end OdcGeo
